@@ -734,7 +734,7 @@ pub fn op_alphabet(full: bool, likely: bool) -> Vec<String> {
         o.push(format!("tf:{}", h(k)));
     }
     o.push("ctf".into());
-    let tlangs: &[&str] = if full { &["es-AR", "und", "es_latn-MACOS-macos", "e-s", "en-u-ca", "", "es-1996-Latn"] } else { &["es-AR", "und", "e-s"] };
+    let tlangs: &[&str] = if full { &["es-AR", "und", "es_latn-MACOS-macos", "e-s", "en-u-ca", "", "es-1996-Latn", "UND-latn"] } else { &["es-AR", "und", "e-s", "Und"] };
     for t in tlangs {
         o.push(format!("stl:{}", h(t)));
     }
@@ -746,7 +746,7 @@ pub fn op_alphabet(full: bool, likely: bool) -> Vec<String> {
         o.push(format!("ht:{}", h(t)));
     }
     o.push("ct".into());
-    let langs: &[&str] = if full { &["en", "und", "EN", "zzzz", "e", "sr", "", "abcde", "ar", "uz"] } else { &["en", "und", "zzzz", "ar"] };
+    let langs: &[&str] = if full { &["en", "und", "EN", "zzzz", "e", "sr", "", "abcde", "ar", "uz", "UND", "Und"] } else { &["en", "und", "zzzz", "ar", "Und"] };
     for l in langs {
         o.push(format!("sl:{}", h(l)));
     }
@@ -781,7 +781,7 @@ pub fn op_alphabet(full: bool, likely: bool) -> Vec<String> {
 
 const HIST_INITS: &[&str] = &[
     "~", "en", "und", "en-Latn-US-macos", "en-u-ca-buddhist", "en-t-es-AR-h0-hybrid", "en-x-foo-bar",
-    "sr-Cyrl-RS-u-attr-ca-gregory-nu-latn-t-es-h0-hybrid-m0-foo-bar-x-priv-a", "ar-EG", "zh-TW-u-ca",
+    "sr-Cyrl-RS-u-attr-ca-gregory-nu-latn-t-es-h0-hybrid-m0-foo-bar-x-priv-a", "ar-EG", "zh-TW-u-ca", "UND-arab",
 ];
 
 fn stream_hist(thorough: bool, seed: u64, out: &mut dyn Write) {
@@ -868,6 +868,10 @@ fn stream_match(thorough: bool, seed: u64, out: &mut dyn Write) {
         for b in &ids {
             for (ra, rb) in [(0, 0), (0, 1), (1, 0), (1, 1)] {
                 writeln!(out, "match {} {} {} {}", hex(a.as_bytes()), hex(b.as_bytes()), ra, rb).unwrap();
+                // the same pair with a present-but-empty variant list (`Some([])`) on either side
+                for (ex, ey) in [(1, 0), (0, 1), (1, 1)] {
+                    writeln!(out, "matchx {} {} {} {} {} {}", hex(a.as_bytes()), hex(b.as_bytes()), ra, rb, ex, ey).unwrap();
+                }
             }
         }
     }
@@ -918,6 +922,9 @@ fn stream_match(thorough: bool, seed: u64, out: &mut dyn Write) {
         let y = render(&mut r, &b.tokens(), 2);
         let (ra, rb) = (r.below(2), r.below(2));
         writeln!(out, "locmatch {} {} {} {}", hex(&x), hex(&y), ra, rb).unwrap();
+        if i % 4 == 0 {
+            writeln!(out, "locmatchx {} {} {} {} {} {}", hex(&x), hex(&y), ra, rb, r.below(2), r.below(2)).unwrap();
+        }
     }
 }
 
